@@ -46,6 +46,10 @@ type c13Case struct {
 	Fallback bool `json:"fallback_port,omitempty"`
 	// DebugLog: WithDebugLog and one log.Stdlog value (WithLogger) shared by all connections of the Client
 	DebugLog bool `json:"debug_log,omitempty"`
+	// DeadConn (mixed only): the first batch on the shared connection starts with a message that cannot be rendered
+	// (its signing fails), which costs the Client its established connection while the other calls are under way.
+	// Send calls may fail from then on; the DialAndSend calls have their own connections and are judged as always.
+	DeadConn bool `json:"shared_connection_lost,omitempty"`
 }
 
 type c13Viol struct {
@@ -64,6 +68,7 @@ type c13Report struct {
 	Connections   int       `json:"connections"`
 	MaxInFlight   int       `json:"max_in_flight"`
 	SumInFlight   int       `json:"sum_in_flight"`
+	SharedFailed  int       `json:"send_calls_failed_after_connection_loss,omitempty"`
 	CommitOrder   string    `json:"commit_order"`
 	Porcupine     string    `json:"porcupine"`
 	Ops           int       `json:"ops"`
@@ -197,6 +202,17 @@ func c13Run(c c13Case) c13Report {
 		msgs = append(msgs, ms)
 	}
 	rep.Messages = len(all)
+	var poison *mail.Msg
+	if c.DeadConn {
+		ps := gen.MsgSpec{ID: "c13-poison", Enc: "quoted-printable", Subject: "c13 poison", From: gen.AddrSpec{Addr: "poison@sender.example"},
+			To: []gen.AddrSpec{{Addr: "poison@rcpt.example"}}, Parts: []gen.PartSpec{{Type: "text/plain", Content: []byte("never rendered\r\n")}}, SMIME: "ed25519-unsupported"}
+		pm, err := ps.Build(env)
+		if err != nil {
+			add("harness", "build poison: "+err.Error(), "")
+			return rep
+		}
+		poison = pm
+	}
 	if c.Mode != "dialandsend" {
 		ctx, cancel := context.WithTimeout(context.Background(), 20*time.Second)
 		err := cl.DialWithContext(ctx)
@@ -224,6 +240,9 @@ func c13Run(c c13Case) c13Report {
 			for _, m := range msgs[g] {
 				m.shared = op.shared
 			}
+			if poison != nil && g == 0 {
+				ms = append([]*mail.Msg{poison}, ms...)
+			}
 			<-start
 			op.call = faultio.Tick()
 			if op.shared {
@@ -240,9 +259,27 @@ func c13Run(c c13Case) c13Report {
 	select {
 	case <-done:
 	case <-time.After(120 * time.Second):
-		rep.Inconclusive = append(rep.Inconclusive, "sends did not finish within 120 s")
+		// every connection is closed now: network reads and writes return at once, only a wait that does not depend
+		// on the peer can keep a call from returning
 		farm.Shutdown()
-		<-done
+		select {
+		case <-done:
+			rep.Inconclusive = append(rep.Inconclusive, "sends did not finish within 120 s (they returned once the server side was closed)")
+		case <-time.After(30 * time.Second):
+			buf := make([]byte, 1<<20)
+			buf = buf[:runtime.Stack(buf, true)]
+			waits := 0
+			for _, gr := range strings.Split(string(buf), "\n\n") {
+				if strings.Contains(gr, "go-mail.(*Client)") && (strings.Contains(gr, "sync.(*RWMutex).RLock") || strings.Contains(gr, "sync.(*RWMutex).Lock") || strings.Contains(gr, "sync.(*Mutex).Lock")) {
+					waits++
+				}
+			}
+			if waits > 0 {
+				add("calls-never-return:lock-wait", fmt.Sprintf("%d goroutines are still inside Send/DialAndSend 30 s after every connection was closed, all waiting for a lock of the Client", waits), string(buf))
+			} else {
+				rep.Inconclusive = append(rep.Inconclusive, "sends did not finish within 150 s and are not waiting for a lock")
+			}
+		}
 		return rep
 	}
 	if c.Mode != "dialandsend" {
@@ -281,6 +318,9 @@ func c13Run(c c13Case) c13Report {
 		}
 		ci := 0
 		for _, cm := range commits {
+			if c.DeadConn && !cm.Complete && len(cm.Data) == 0 {
+				continue // the DATA phase of the message that cannot be rendered: the client hung up without sending any of it
+			}
 			if !cm.Accepted || !cm.Complete {
 				add("commit-not-accepted", fmt.Sprintf("connection %d: end-of-data not accepted/complete (code %d)", si, cm.Code), "")
 				continue
@@ -327,6 +367,13 @@ func c13Run(c c13Case) c13Report {
 	}
 	rep.CommitOrder = strings.Join(orderParts, " ")
 	for id, m := range all {
+		if c.DeadConn && m.shared {
+			// the shared connection was lost on purpose: a message may be undelivered, never delivered twice
+			if committed[id] > 1 {
+				add(fmt.Sprintf("delivered-%d-times", committed[id]), fmt.Sprintf("message %s was committed %d times over all connections", id, committed[id]), "")
+			}
+			continue
+		}
 		if committed[id] != 1 {
 			add(fmt.Sprintf("delivered-%d-times", committed[id]), fmt.Sprintf("message %s was committed %d times over all connections", id, committed[id]), "")
 		}
@@ -335,6 +382,12 @@ func c13Run(c c13Case) c13Report {
 		}
 	}
 	for _, op := range ops {
+		if c.DeadConn && op.shared {
+			if op.err != nil {
+				rep.SharedFailed++
+			}
+			continue
+		}
 		if op.err != nil {
 			add("send-returned-error", fmt.Sprintf("goroutine %d: send of %v returned %v", op.g, op.ids, op.err), "")
 		}
@@ -435,6 +488,9 @@ func c13Child(args []string) int {
 	if len(args) > 7 {
 		c.DebugLog = args[7] == "debuglog"
 	}
+	if len(args) > 8 {
+		c.DeadConn = args[8] == "deadconn"
+	}
 	rep := c13Run(c)
 	b, _ := json.Marshal(rep)
 	fmt.Printf("C13REPORT %s\n", b)
@@ -453,7 +509,7 @@ func runC13(r *ev.Run, rep *ev.ReplayDoc) ev.Summary {
 	}
 	exe, _ := os.Executable()
 	runChild := func(c c13Case) {
-		cmd := exec.Command(exe, "child", "c13", c.Mode, fmt.Sprint(c.G), fmt.Sprint(c.Rep), fmt.Sprint(c.Seed), c.Auth, map[bool]string{true: "smime", false: "plain"}[c.SMIME], map[bool]string{true: "fallback", false: "direct"}[c.Fallback], map[bool]string{true: "debuglog", false: "nolog"}[c.DebugLog])
+		cmd := exec.Command(exe, "child", "c13", c.Mode, fmt.Sprint(c.G), fmt.Sprint(c.Rep), fmt.Sprint(c.Seed), c.Auth, map[bool]string{true: "smime", false: "plain"}[c.SMIME], map[bool]string{true: "fallback", false: "direct"}[c.Fallback], map[bool]string{true: "debuglog", false: "nolog"}[c.DebugLog], map[bool]string{true: "deadconn", false: "liveconn"}[c.DeadConn])
 		cmd.Env = os.Environ()
 		var outb, errb bytes.Buffer
 		cmd.Stdout, cmd.Stderr = &outb, &errb
@@ -517,6 +573,10 @@ func runC13(r *ev.Run, rep *ev.ReplayDoc) ev.Summary {
 		}
 		r.Max("max_sends_in_flight_at_a_commit", int64(cr.MaxInFlight))
 		r.Count("sum_in_flight_at_commits", int64(cr.SumInFlight))
+		if c.DeadConn {
+			r.Count("runs_with_shared_connection_lost", 1)
+			r.Count("send_calls_failed_after_connection_loss", int64(cr.SharedFailed))
+		}
 		if cr.MaxInFlight >= 2 {
 			r.Count("runs_with_concurrency", 1)
 		}
@@ -564,6 +624,12 @@ func runC13(r *ev.Run, rep *ev.ReplayDoc) ev.Summary {
 				}
 				cs.DebugLog = (i+g/8)%4 == 2
 				cases = append(cases, cs)
+				if mode == "mixed" && g >= 8 && (i == 0 || i%3 == 1) {
+					// the same repetition with the shared connection lost half way
+					dc := cs
+					dc.DeadConn, dc.SMIME = true, false
+					cases = append(cases, dc)
+				}
 			}
 		}
 	}
